@@ -30,7 +30,9 @@ pub fn blocks(thorough: bool) -> Vec<Block> {
     let mut b = vec![];
     if !thorough {
         b.push(Block::new(Universe::new("U_ab3{a,b}", &["a", "b"], 3, 0, true), thr(&[0], &grid22), "r x thresholds {(1,1),(2,1),(1,2),(2,2),(3,1),(1,3)}"));
-        b.push(Block::new(u_rep_single(&["a", "b"], 10), thr(&[0, W, I | X], &grid22), "r x {{}, w, i+x} x 6 thresholds"));
+        let grid_long: Vec<(u32, u32)> = grid22.iter().copied().chain([(1, 4), (2, 3)]).collect();
+        b.push(Block::new(u_rep_single(&["a", "b"], 14), thr(&[0], &grid_long), "r x 8 thresholds (every single string to length 14: overlapping and nested repeats with tails)"));
+        b.push(Block::new(u_rep_single(&["a", "b"], 10), thr(&[W, I | X], &grid22), "r x {w, i+x} x 6 thresholds"));
         b.push(Block::new(u_rep_single(&["a", "b", "c"], 6), thr(&[0], &grid22), "r x 6 thresholds"));
         b.push(Block::new(Universe::new("U_pairs{a,b}^<=4", &["a", "b"], 4, 2, false), thr(&[0], &[(1, 1), (2, 1), (1, 2)]), "r x {(1,1),(2,1),(1,2)}"));
         b.push(Block::new(Universe::new("U_abc2{a,b,c}", &["a", "b", "c"], 2, 0, true), thr(&bases_all, &[(1, 1)]), "r x 9 bases"));
@@ -41,7 +43,9 @@ pub fn blocks(thorough: bool) -> Vec<Block> {
     } else {
         b.push(Block::new(Universe::new("U_ab3{a,b}", &["a", "b"], 3, 0, true), thr(&[0], &grid44), "r x thresholds 1..=4 x 1..=4 + (50,1),(1,50)"));
         b.push(Block::new(Universe::new("U_ab3{a,b}", &["a", "b"], 3, 0, true), thr(&bases_all, &[(1, 1), (2, 1)]), "r x 9 bases x {(1,1),(2,1)}"));
-        b.push(Block::new(u_rep_single(&["a", "b"], 12), thr(&[0, W, I | X, E], &grid44), "r x {{}, w, i+x, e} x 18 thresholds"));
+        b.push(Block::new(u_rep_single(&["a", "b"], 16), thr(&[0], &grid44), "r x 18 thresholds (every single string to length 16)"));
+        b.push(Block::new(u_rep_single(&["a", "b", "c"], 10), thr(&[0], &[(1, 1), (1, 2), (1, 3), (2, 2), (1, 4)]), "r x 5 thresholds"));
+        b.push(Block::new(u_rep_single(&["a", "b"], 12), thr(&[W, I | X, E], &grid44), "r x {w, i+x, e} x 18 thresholds"));
         b.push(Block::new(u_rep_single(&["a", "b", "c"], 7), thr(&[0, X], &grid44), "r x {{}, x} x 18 thresholds"));
         b.push(Block::new(Universe::new("U_triples{a,b}^<=4", &["a", "b"], 4, 3, false), thr(&[0], &[(1, 1), (2, 1), (1, 2)]), "r x {(1,1),(2,1),(1,2)}"));
         b.push(Block::new(Universe::new("U_pairs{a,b}^<=6", &["a", "b"], 6, 2, false), thr(&[0], &[(1, 1), (2, 2)]), "r x {(1,1),(2,2)}"));
